@@ -61,6 +61,29 @@ def extract(repo, failures):
         d["perEventCatch"] = "QUILL_CATCH_ALL" in pl and "QUILL_CATCH(std::exception" in pl.replace(" ", "").replace("QUILL_CATCH(std::exceptionconst&e)", "QUILL_CATCH(std::exception")
         d["strictMinimum"] = bool(re.search(r"min_ts\s*>\s*te->timestamp", pl))
 
+    # F26: every `backtrace_storage->process(callback)` replays through a function whose whole body is
+    # try { _dispatch_transit_event_to_sinks(...) } catch (std::exception) -> error_notifier / catch-all -> error_notifier,
+    # so a throwing sink costs one stored statement and never leaves the storage uncleared
+    calls = re.findall(r"backtrace_storage->process\(\s*\[[^\]]*\]\s*\([^)]*\)\s*\{\s*(\w+)\s*\(", bw)
+    if len(calls) < 2:
+        failures.append("backend: the two backtrace_storage->process(callback) call sites not found")
+        d["replayCatchesPerEvent"] = False
+    else:
+        ok = True
+        for fn in set(calls):
+            if fn == "_dispatch_transit_event_to_sinks":
+                ok = False
+                continue
+            fb = func_body(bw, r"void\s+" + re.escape(fn) + r"\s*\([^)]*\)\s*\{")
+            if fb is None:
+                ok = False
+                continue
+            mt = re.search(r"QUILL_TRY\s*\{\s*_dispatch_transit_event_to_sinks\s*\([^;]*;\s*\}", fb)
+            i_c1 = fb.find("QUILL_CATCH(std::exception")
+            i_c2 = fb.find("QUILL_CATCH_ALL")
+            ok = ok and bool(mt) and 0 <= i_c1 < i_c2 and fb.count("error_notifier") >= 2 and "throw" not in fb[i_c1:]
+        d["replayCatchesPerEvent"] = ok
+
     # context clean-up: a bounded-queue context with an unreported failure counter is not removed (F24)
     cc = func_body(bw, r"void\s+_cleanup_invalidated_thread_contexts\s*\(\s*\)\s*\{")
     if cc is None:
